@@ -301,7 +301,7 @@ type c16SRVRec struct {
 }
 
 type c16SRVAns struct {
-	Kind string      `json:"kind"` // "nx" | "nodata" | "servfail" | "records"
+	Kind string      `json:"kind"` // "nx" | "nodata" | "servfail" | "records" | "mixed" (records, one more of them with a target that is no host name: the resolver reports an error next to the well-formed ones)
 	Recs []c16SRVRec `json:"recs,omitempty"`
 }
 
@@ -311,7 +311,7 @@ type c16SRVSpec struct {
 }
 
 func (a c16SRVAns) found() bool  { return a.Kind == "records" && len(a.Recs) > 0 }
-func (a c16SRVAns) failed() bool { return a.Kind == "servfail" }
+func (a c16SRVAns) failed() bool { return a.Kind == "servfail" || a.Kind == "mixed" }
 
 // ---------------------------------------------------------------------------------------------
 // resolution reference
